@@ -75,6 +75,13 @@ CHECKS = {
                      "input, TLC builds the expected graph from it and requires both dumps to equal it (up to node identity, both traversal "
                      "directions agreeing), and the same generated read queries run on both databases, each judged against the reference.",
                 note="single-label nodes (the loader's input format)"),
+    "C32": dict(ref="5 C32", tech="TLC model checking of ExtId.tla + its behaviours replayed through the clock hook, judged by CypherTrace.TExt",
+                text="ExtId.tla models the allocation rule (per-statement counter + clock read per node) under a clock that ticks, stalls or "
+                     "steps back; TLC finds the duplicate; the behaviours (statement sizes and the reading of every creation) are replayed as "
+                     "CREATE statements under the clock hook, followed by compaction and reopen; TLC requires every statement to succeed, to "
+                     "add exactly its nodes, and every node to keep its identity, and attributes a failure to the rule only when the rule "
+                     "itself yields the duplicate for the recorded readings.",
+                note="known finding KF-25"),
     "C33": dict(ref="5 C33", tech="TLA+ trace validation (CypherTrace.TLim): limited runs against the unlimited run of the same query",
                 text="Queries with large intermediates run without limits and under 5 limit settings each; TLC requires every limited run to "
                      "return the same bag of rows or a resource-limit error, with the reported observed count of per-row limits <= limit+1 "
@@ -152,7 +159,7 @@ CHECKS = {
 }
 
 # properties whose check has been run green on the unchanged tree
-ENABLED = ["C01", "C02", "C03", "C04", "C05", "C06", "C07", "C08", "C09", "C10", "C11", "C12", "C13", "C14", "C15", "C17", "C19", "C20", "C21", "C22", "C23", "C24", "C26", "C27", "C28", "C29", "C30", "C33"]
+ENABLED = ["C01", "C02", "C03", "C04", "C05", "C06", "C07", "C08", "C09", "C10", "C11", "C12", "C13", "C14", "C15", "C17", "C19", "C20", "C21", "C22", "C23", "C24", "C26", "C27", "C28", "C29", "C30", "C32", "C33"]
 
 NOT_APPLICABLE = {
     "C16": "quantifies over arbitrary byte strings and resource exhaustion; no state machine to specify, a fuzzer's job (DESIGN.md 6)",
